@@ -282,3 +282,15 @@ def c02(r):
     ntyped = sum(1 for o in obs.values() for st in o.get('obs', []) if st.get('op') == 'expr' and st.get('oc') == 'ok' and st.get('sty', {}).get('m') != 'undef')
     r.extra['expressions'] = nexpr
     r.extra['expressions_evaluated_with_defined_static_type'] = ntyped
+
+
+@prop('C16')
+def c16(r):
+    r.assumptions += ['the two modules are csv and utf8 (safe constructors without side effects); the host API is exercised through the C++ PluginManager the C API wraps',
+                      'every scenario starts with an empty registry (PluginManager::destroy between scenarios)']
+    r.mc('BlocPlugin', 'MC_C16.cfg' if not r.quick else 'MC_C16_quick.cfg',
+         'all histories of unban/clear/clone/import/import-by-path/include/ctor(top,function)/typed declaration: no ungranted object in an untrusted context')
+    scs = r.gen('Gen_C16', 'Gen_C16.cfg' if r.quick else 'Gen_C16_thorough.cfg', workers=8, timeout=3000)
+    r.exhaustive = True
+    r.extra['bounds'] = 'all histories of length %d over 2 modules, 3 contexts (trusted, untrusted, clone of either)' % (3 if r.quick else 4)
+    r.conform(scs, trace_module='Trace_C16', trace_cfg='Trace_C16.cfg', workers=16)
